@@ -291,6 +291,179 @@ fn undersized(ctx: &Ctx) -> fw::Stats {
     total
 }
 
+/// String / Vec receivers whose allocation is page-aligned at BOTH ends (so the spare capacity ends
+/// exactly on a 4 KiB boundary, which an ordinary malloc'ed buffer never does) with the used part
+/// ending at every interesting offset: the receiver methods touch the spare capacity page by page
+/// before converting into it.  No panic, no reallocation, old contents intact, output appended.
+fn page_aligned_receivers(ctx: &Ctx) -> fw::Stats {
+    use serde_json::json;
+    use std::alloc::{alloc, dealloc, Layout};
+    let encs_: Vec<&'static encoding_rs::Encoding> = vec![encoding_rs::UTF_8, encoding_rs::WINDOWS_1252, encoding_rs::SHIFT_JIS, encoding_rs::GB18030, encoding_rs::UTF_16LE, encoding_rs::ISO_2022_JP];
+    fw::par_run(ctx, encs_.len() * 4, |part, st| {
+        let enc = encs_[part / 4];
+        let pages = 1 + part % 4;
+        let size = pages * 4096;
+        let layout = Layout::from_size_align(size, 4096).unwrap();
+        let mut useds: Vec<usize> = vec![0, 1, 2, 15, 16, 17, 100];
+        for pg in 1..=pages {
+            for d in [-17i64, -16, -5, -4, -3, -2, -1, 0, 1, 2, 16] {
+                let u = pg as i64 * 4096 + d;
+                if u >= 0 && (u as usize) < size {
+                    useds.push(u as usize);
+                }
+            }
+        }
+        useds.sort();
+        useds.dedup();
+        let srcs: [&[u8]; 4] = [b"", b"a", b"ab\x82\xA0c", b"\xFF\xFEa\x00"];
+        let texts: [&str; 3] = ["", "a", "a\u{E9}\u{3042}z"];
+        for &used in &useds {
+            for slack in [0usize, 1, 16] {
+                if used + slack > size {
+                    continue;
+                }
+                let cap = size - slack;
+                if used > cap {
+                    continue;
+                }
+                for method in 0..4u8 {
+                    let n_in = if method < 2 { srcs.len() } else { texts.len() };
+                    for ii in 0..n_in {
+                        if fw::should_stop() {
+                            return;
+                        }
+                        st.evals += 1;
+                        st.nontrivial_distinct();
+                        st.class("page-aligned-String-or-Vec-receiver");
+                        // SAFETY: a fresh allocation of `size` bytes, initialised up to `used`, owned by the
+                        // String / Vec only for the duration of the call and released with its own layout
+                        let p = unsafe { alloc(layout) };
+                        assert!(!p.is_null());
+                        unsafe { std::ptr::write_bytes(p, b'x', used) };
+                        let mut problem: Option<String> = None;
+                        let (ptr2, len2, cap2);
+                        if method < 2 {
+                            let mut s = unsafe { String::from_raw_parts(p, used, cap) };
+                            let mut d = enc.new_decoder_without_bom_handling();
+                            let r = fw::catch(|| {
+                                if method == 0 {
+                                    let _ = d.decode_to_string(srcs[ii], &mut s, true);
+                                } else {
+                                    let _ = d.decode_to_string_without_replacement(srcs[ii], &mut s, true);
+                                }
+                            });
+                            if let Err(e) = r {
+                                problem = Some(format!("panicked: {}", e));
+                            }
+                            ptr2 = s.as_ptr();
+                            len2 = s.len();
+                            cap2 = s.capacity();
+                            if problem.is_none() && (ptr2 != p as *const u8 || cap2 != cap) {
+                                problem = Some("the String was reallocated".into());
+                            } else if problem.is_none() && (len2 < used || len2 > cap || !s.as_bytes()[..used].iter().all(|b| *b == b'x') || std::str::from_utf8(s.as_bytes()).is_err()) {
+                                problem = Some(format!("length {} (was {}), old contents intact: {}, valid: {}", len2, used, len2 >= used && s.as_bytes()[..used].iter().all(|b| *b == b'x'), std::str::from_utf8(s.as_bytes()).is_ok()));
+                            }
+                            std::mem::forget(s);
+                        } else {
+                            let mut v = unsafe { Vec::from_raw_parts(p, used, cap) };
+                            let mut e = enc.new_encoder();
+                            let r = fw::catch(|| {
+                                if method == 2 {
+                                    let _ = e.encode_from_utf8_to_vec(texts[ii], &mut v, true);
+                                } else {
+                                    let _ = e.encode_from_utf8_to_vec_without_replacement(texts[ii], &mut v, true);
+                                }
+                            });
+                            if let Err(e) = r {
+                                problem = Some(format!("panicked: {}", e));
+                            }
+                            ptr2 = v.as_ptr();
+                            len2 = v.len();
+                            cap2 = v.capacity();
+                            if problem.is_none() && (ptr2 != p as *const u8 || cap2 != cap) {
+                                problem = Some("the Vec was reallocated".into());
+                            } else if problem.is_none() && (len2 < used || len2 > cap || !v[..used].iter().all(|b| *b == b'x')) {
+                                problem = Some(format!("length {} (was {}) or old contents altered", len2, used));
+                            }
+                            std::mem::forget(v);
+                        }
+                        if ptr2 == p as *const u8 {
+                            unsafe { dealloc(p, layout) };
+                        }
+                        if let Some(m) = problem {
+                            let name = ["decode_to_string", "decode_to_string_without_replacement", "encode_from_utf8_to_vec", "encode_from_utf8_to_vec_without_replacement"][method as usize];
+                            st.violations.push(fw::Violation {
+                                msg: format!("{} {} into a receiver whose {}-byte allocation is page-aligned at both ends (capacity {}, {} bytes used, spare capacity ends {} byte(s) before a page boundary), input #{}: {}", enc.name(), name, size, cap, used, slack, ii, m),
+                                sig: "C06:page-aligned-receiver".into(),
+                                case: json!({"kind": "c06_page_receiver", "encoding": encs::const_name(enc), "pages": pages, "used": used, "slack": slack, "method": method, "input": ii}),
+                            });
+                            return;
+                        }
+                    }
+                }
+            }
+        }
+    })
+}
+
+/// the one-shot methods size their own buffers from the length queries and treat OutputFull as
+/// unreachable: every sequence of up to three atoms / alphabet characters must go through without a panic
+fn one_shot_no_panic(ctx: &Ctx) -> fw::Stats {
+    use crate::model_dec::algo_for;
+    use serde_json::json;
+    let all = encs::all();
+    fw::par_run(ctx, all.len(), |part, st| {
+        let enc = all[part];
+        let algo = algo_for(enc);
+        let streams = hist::core_streams(algo, 9, true);
+        for sb in &streams {
+            if fw::should_stop() {
+                return;
+            }
+            st.evals += 1;
+            st.nontrivial_distinct();
+            st.class("one-shot-decode-no-panic");
+            let dsc = crate::guard::Desc { what: "Encoding::decode* (one-shot)", encoding: enc.name(), data: sb.as_ptr(), len: sb.len() };
+            let _g = crate::guard::enter(&dsc);
+            let r = fw::catch(|| {
+                let _ = enc.decode(sb);
+                let _ = enc.decode_with_bom_removal(sb);
+                let _ = enc.decode_without_bom_handling(sb);
+                let _ = enc.decode_without_bom_handling_and_without_replacement(sb);
+            });
+            if let Err(p) = r {
+                st.violations.push(fw::Violation { msg: format!("{}: a one-shot decode method panicked on {}: {}", enc.name(), fw::hex(sb), p), sig: "C06:one-shot-panic".into(), case: json!({"kind": "c06_one_shot_dec", "encoding": encs::const_name(enc), "bytes_hex": fw::hex(sb)}) });
+                return;
+            }
+        }
+        let alpha: Vec<u32> = hist_enc::alphabet(enc).into_iter().filter(|c| !crate::drive_enc::is_sur(*c)).collect();
+        let mut t = String::new();
+        for &a in &alpha {
+            for &b in &alpha {
+                for &c in alpha.iter().step_by(3) {
+                    st.evals += 1;
+                    st.nontrivial_distinct();
+                    st.class("one-shot-encode-no-panic");
+                    t.clear();
+                    for x in [a, b, c] {
+                        t.push(char::from_u32(x).unwrap());
+                    }
+                    let r = fw::catch(|| {
+                        let _ = enc.encode(&t);
+                    });
+                    if let Err(p) = r {
+                        st.violations.push(fw::Violation { msg: format!("{}: Encoding::encode panicked on {:?}: {}", enc.name(), t, p), sig: "C06:one-shot-panic".into(), case: json!({"kind": "c06_one_shot_enc", "encoding": encs::const_name(enc), "text_utf8_hex": fw::hex(t.as_bytes())}) });
+                        return;
+                    }
+                }
+            }
+            if fw::should_stop() {
+                return;
+            }
+        }
+    })
+}
+
 pub fn run(ctx: &Ctx) -> i32 {
     let t0 = Instant::now();
     // half of the cases (odd alignment selector) run with sources and slice destinations fenced by
@@ -320,6 +493,14 @@ pub fn run(ctx: &Ctx) -> i32 {
     let mut st = dech::run_dec_check(ctx, &dc);
     if !fw::should_stop() {
         st.merge(undersized(ctx));
+    }
+    if !fw::should_stop() {
+        st.merge(page_aligned_receivers(ctx));
+        st.exhaustive.push("String / Vec receivers in 1..=4-page allocations aligned at both ends x used lengths around every page boundary x capacity ending 0/1/16 bytes before the boundary x 4 receiver methods x 6 encodings x short inputs".into());
+    }
+    if !fw::should_stop() {
+        st.merge(one_shot_no_panic(ctx));
+        st.exhaustive.push("one-shot decode* on every sequence of up to three atoms (9 bytes) and Encoding::encode on alphabet triples, all 40 encodings: no panic".into());
     }
     if !fw::should_stop() {
         let ec = EncCheck {
@@ -358,6 +539,31 @@ pub fn replay(case: &serde_json::Value) -> Option<Vec<fw::Violation>> {
         Some("mem") => memfam::replay_mem(case, "C06", false),
         Some("enc_history") => ench::replay_with(case, &ench::verdict_c06),
         Some("dec_history") => dech::replay_with(case, &dech::verdict_c06),
+        Some("c06_one_shot_dec") => {
+            let enc = encs::by_const(case.get("encoding")?.as_str()?)?;
+            let b = fw::unhex(case.get("bytes_hex")?.as_str()?);
+            let r = fw::catch(|| {
+                let _ = enc.decode(&b);
+                let _ = enc.decode_with_bom_removal(&b);
+                let _ = enc.decode_without_bom_handling(&b);
+                let _ = enc.decode_without_bom_handling_and_without_replacement(&b);
+            });
+            Some(r.err().map(|p| vec![fw::Violation { msg: format!("{}: a one-shot decode method panicked on {}: {}", enc.name(), fw::hex(&b), p), sig: "C06:one-shot-panic".into(), case: case.clone() }]).unwrap_or_default())
+        }
+        Some("c06_one_shot_enc") => {
+            let enc = encs::by_const(case.get("encoding")?.as_str()?)?;
+            let t = String::from_utf8(fw::unhex(case.get("text_utf8_hex")?.as_str()?)).ok()?;
+            let r = fw::catch(|| {
+                let _ = enc.encode(&t);
+            });
+            Some(r.err().map(|p| vec![fw::Violation { msg: format!("{}: Encoding::encode panicked on {:?}: {}", enc.name(), t, p), sig: "C06:one-shot-panic".into(), case: case.clone() }]).unwrap_or_default())
+        }
+        Some("c06_page_receiver") => {
+            // re-run the whole (small) family: the case is identified by its message
+            let ctx = Ctx { prop: "C06".into(), tier: fw::Tier::Quick, seed: 0, threads: 1, scale: 1.0 };
+            let st = page_aligned_receivers(&ctx);
+            Some(st.violations)
+        }
         Some("c06_undersized_dec") => {
             let enc = encs::by_const(case.get("encoding")?.as_str()?)?;
             let stream = fw::unhex(case.get("stream_hex")?.as_str()?);
